@@ -35,6 +35,24 @@ def finding_fixed(fid):
 N1 = finding_fixed("C10-N1") or os.environ.get("C10_N1_FIXED", "") == "1"     # fixes/FC10a applied
 N4 = finding_fixed("C10-N4") or os.environ.get("C10_N4_FIXED", "") == "1"     # fixes/FC10b applied
 
+
+def _c05_d42_fixed():
+    """fix F42 (from_stride: `steps[0] is not None`) belongs to finding D42 of C05; the model variant of from_strides
+    follows its status (known_findings.d/C05.json is the per-property source, known_findings.json the merged index)."""
+    import json
+    root = os.path.dirname(os.path.dirname(os.path.dirname(os.path.abspath(__file__))))
+    for rel in (os.path.join("known_findings.d", "C05.json"), "known_findings.json"):
+        try:
+            if any(f.get("property") == "C05" and f.get("id") == "D42" and f.get("status") == "fixed"
+                   for f in json.load(open(os.path.join(root, rel))).get("findings", [])):
+                return True
+        except OSError:
+            pass
+    return False
+
+
+F42 = (_c05_d42_fixed() or os.environ.get("C10_F42_FIXED", "") == "1") and os.environ.get("C10_F42_FIXED", "") != "0"
+
 ENUM_CAP = 2048      # largest box that is enumerated (all_values, box sweeps)
 STEPSET = [1, 2, 3, 4, 5, 8, 16, 32, 64]
 
@@ -824,7 +842,8 @@ class C10(Prop):
         if k == "views":
             return [{"fn": "c10.views", "args": {"layout": case["layout"], "pts": case["pts"], "enum": case["enum"]}}]
         if k == "from_strides":
-            return [{"fn": "c10.from_strides", "args": {kk: case[kk] for kk in ("strides", "tile_bounds", "offset")}}]
+            return [{"fn": "c10.from_strides", "args": dict({kk: case[kk] for kk in ("strides", "tile_bounds", "offset")},
+                                                            f42=F42)}]
         if k == "resolve":
             return [{"fn": "c10.resolve", "args": {"layout": case["layout"], "shape": case["shape"], "el": e, "n1": N1,
                                                    "canon": c}} for e, c in ((case["el"], False), (1, False), (1, True))]
@@ -834,7 +853,7 @@ class C10(Prop):
                 "offset": case.get("offset", 0), "shape": case["shape"], "meta": case["meta"],
                 # with fix FC10b the metadata strides are scaled by the requested unit, not by the element size
                 "el_size": (case["el_size"] if case["in_bytes"] else 1) if N4 else case["el_size"],
-                "el": case["el_size"] if case["in_bytes"] else 1}}]
+                "el": case["el_size"] if case["in_bytes"] else 1, "f42": F42}}]
         if k == "subview_module":
             return [{"fn": "c10.subview", "args": {"layout": it["layout"], "el": it["el"], "offs": it["offs"],
                                                    "dyn": it["dyn"], "f13": F13, "base": it["base"]}}
